@@ -132,6 +132,7 @@ type Exec struct {
 	vchoices  []int
 	callersFull int
 	pending   []pendingAssert
+	fp        *footprintRec
 	flushing  bool
 	queryTimeout int
 
@@ -641,6 +642,7 @@ func (ex *Exec) resetPath() {
 	ex.callersFull = 0
 	ex.pending = nil
 	ex.flushing = false
+	ex.fp = nil
 	ex.rt = newRuntimeState(ex)
 }
 
